@@ -336,7 +336,7 @@ class Ctx:
         s.violations.append(dict(what=what, replay=path))
         s.say('VIOLATION property=%s replay=%s' % (s.pid, path)); s.say('  ' + what)
 
-    def handle_failures(s, replay, kf=(), skip=()):
+    def handle_failures(s, replay, kf=(), skip=(), classifier=None):
         """every solver counterexample is replayed on the native build of the real code; only a reproduced one
         becomes a VIOLATION (or a KNOWN-FINDING when a committed classifier covers it)"""
         seen = set()
@@ -350,6 +350,9 @@ class Ctx:
                 except Broken as e: ok, what = False, 'replay failed to build/run: %s' % str(e)[:300]
                 if ok:
                     cls = next((e for e in kf if e.get('status') == 'known' and e.get('classify') and _classify(e['classify'], fl['cx'])), None)
+                    if cls is None and classifier:
+                        kid = classifier(fl['cx'], h)
+                        cls = next((e for e in kf if e.get('status') == 'known' and e.get('id') == kid), None) if kid else None
                     if cls: s.say('  (counterexample of %s falls in known finding: %s)' % (h.name, cls['what']))
                     else: s.violation('%s: %s [%s]' % (h.name, fl['desc'], what), dict(cx=fl['cx'], harness=h.name))
                 else:
